@@ -93,7 +93,10 @@ def check_instances(instances):
         q = {}
         t1 = time.time()
         problems = list(info['problems'])
-        r1, smaller = coverlib.smaller_cover_exists(k - 1, names, ranges, pts, F, CARE)
+        r1, smaller = ('skipped', None) if k - 1 >= 7 else \
+            coverlib.smaller_cover_exists(k - 1, names, ranges, pts, F, CARE, timeout_ms=20000)
+        if r1 not in ('sat', 'unsat'):
+            r1, smaller = coverlib.smaller_cover_exists_setcover(k - 1, names, ranges, pts, F, CARE)
         q['minimum:' + r1] = 1
         if r1 == 'sat':
             problems.append(f'a cover with {k - 1} boxes exists: {smaller}')
